@@ -375,7 +375,20 @@ static const char *tname (MIR_type_t t) {
                                 "blk0", "blk1", "blk2", "blk3", "blk4", "rblk", "undef"};
   return (unsigned) t <= MIR_T_UNDEF ? names[t] : "?";
 }
-static const char *nn (const char *s) { return s == NULL ? "" : s; }
+/* a name as JSON string contents: anything but plain ASCII is escaped (a damaged string table must not damage the JSON) */
+static const char *nn (const char *s) {
+  static char bufs[8][600];
+  static int k;
+  char *b = bufs[k++ & 7], *o = b;
+  if (s == NULL) return "";
+  for (; *s != 0 && o < b + 580; s++) {
+    unsigned char c = (unsigned char) *s;
+    if (c < 0x20 || c >= 0x7f || c == '"' || c == '\\') o += sprintf (o, "\\u%04x", c);
+    else *o++ = (char) c;
+  }
+  *o = 0;
+  return b;
+}
 
 static void pj_bytes (FILE *o, const uint8_t *p, size_t n) {
   for (size_t i = 0; i < n; i++) fprintf (o, "%02x", p[i]);
@@ -397,7 +410,7 @@ static void pj_lref_label (FILE *o, MIR_module_t m, MIR_label_t lab) {
   for (MIR_item_t it = DLIST_HEAD (MIR_item_t, m->items); it != NULL; it = DLIST_NEXT (MIR_item_t, it))
     if (it->item_type == MIR_func_item) {
       int k = lab_ord (it->u.func, lab);
-      if (k != 0) { fprintf (o, "[\"%s\",%d]", it->u.func->name, k); return; }
+      if (k != 0) { fprintf (o, "[\"%s\",%d]", nn (it->u.func->name), k); return; }
     }
   fprintf (o, "[\"?detached\",0]");
 }
@@ -417,7 +430,7 @@ static void pj_vars (FILE *o, MIR_context_t ctx, MIR_func_t func, VARR (MIR_var_
 
 static void pj_op (FILE *o, MIR_context_t ctx, MIR_func_t func, MIR_op_t op) {
   switch (op.mode) {
-  case MIR_OP_REG: fprintf (o, "{\"k\":\"reg\",\"name\":\"%s\"}", MIR_reg_name (ctx, op.u.reg, func)); break;
+  case MIR_OP_REG: fprintf (o, "{\"k\":\"reg\",\"name\":\"%s\"}", nn (MIR_reg_name (ctx, op.u.reg, func))); break;
   case MIR_OP_INT: fprintf (o, "{\"k\":\"int\",\"v\":\"%016" PRIx64 "\"}", (uint64_t) op.u.i); break;
   case MIR_OP_UINT: fprintf (o, "{\"k\":\"uint\",\"v\":\"%016" PRIx64 "\"}", op.u.u); break;
   case MIR_OP_FLOAT: { uint32_t b; memcpy (&b, &op.u.f, 4); fprintf (o, "{\"k\":\"f\",\"v\":\"%08x\"}", b); break; }
@@ -430,7 +443,7 @@ static void pj_op (FILE *o, MIR_context_t ctx, MIR_func_t func, MIR_op_t op) {
     fprintf (o, "\"}");
     break;
   }
-  case MIR_OP_REF: fprintf (o, "{\"k\":\"ref\",\"name\":\"%s\"}", MIR_item_name (ctx, op.u.ref)); break;
+  case MIR_OP_REF: fprintf (o, "{\"k\":\"ref\",\"name\":\"%s\"}", nn (MIR_item_name (ctx, op.u.ref))); break;
   case MIR_OP_STR:
     fprintf (o, "{\"k\":\"str\",\"b\":\"");
     pj_bytes (o, (const uint8_t *) op.u.str.s, op.u.str.len);
@@ -439,10 +452,10 @@ static void pj_op (FILE *o, MIR_context_t ctx, MIR_func_t func, MIR_op_t op) {
   case MIR_OP_MEM:
     fprintf (o, "{\"k\":\"mem\",\"t\":\"%s\",\"disp\":\"%016" PRIx64 "\",\"base\":\"%s\",\"index\":\"%s\",\"scale\":%d,"
              "\"alias\":\"%s\",\"nonalias\":\"%s\"}",
-             tname (op.u.mem.type), (uint64_t) op.u.mem.disp, op.u.mem.base == 0 ? "" : MIR_reg_name (ctx, op.u.mem.base, func),
-             op.u.mem.index == 0 ? "" : MIR_reg_name (ctx, op.u.mem.index, func),
+             tname (op.u.mem.type), (uint64_t) op.u.mem.disp, op.u.mem.base == 0 ? "" : nn (MIR_reg_name (ctx, op.u.mem.base, func)),
+             op.u.mem.index == 0 ? "" : nn (MIR_reg_name (ctx, op.u.mem.index, func)),
              op.u.mem.index == 0 ? 1 : (int) op.u.mem.scale, /* the scale means something only with an index */
-             MIR_alias_name (ctx, op.u.mem.alias), MIR_alias_name (ctx, op.u.mem.nonalias));
+             nn (MIR_alias_name (ctx, op.u.mem.alias)), nn (MIR_alias_name (ctx, op.u.mem.nonalias)));
     break;
   case MIR_OP_LABEL: {
     int k = lab_ord (func, op.u.label);
@@ -456,18 +469,18 @@ static void pj_op (FILE *o, MIR_context_t ctx, MIR_func_t func, MIR_op_t op) {
 
 static void pj_module (FILE *o, MIR_context_t ctx, MIR_module_t m) {
   int first = 1;
-  fprintf (o, "{\"name\":\"%s\",\"items\":[", m->name);
+  fprintf (o, "{\"name\":\"%s\",\"items\":[", nn (m->name));
   for (MIR_item_t it = DLIST_HEAD (MIR_item_t, m->items); it != NULL; it = DLIST_NEXT (MIR_item_t, it)) {
     if (!first) fprintf (o, ",");
     first = 0;
     switch (it->item_type) {
-    case MIR_import_item: fprintf (o, "{\"k\":\"import\",\"name\":\"%s\"}", it->u.import_id); break;
-    case MIR_export_item: fprintf (o, "{\"k\":\"export\",\"name\":\"%s\"}", it->u.export_id); break;
-    case MIR_forward_item: fprintf (o, "{\"k\":\"forward\",\"name\":\"%s\"}", it->u.forward_id); break;
+    case MIR_import_item: fprintf (o, "{\"k\":\"import\",\"name\":\"%s\"}", nn (it->u.import_id)); break;
+    case MIR_export_item: fprintf (o, "{\"k\":\"export\",\"name\":\"%s\"}", nn (it->u.export_id)); break;
+    case MIR_forward_item: fprintf (o, "{\"k\":\"forward\",\"name\":\"%s\"}", nn (it->u.forward_id)); break;
     case MIR_bss_item: fprintf (o, "{\"k\":\"bss\",\"name\":\"%s\",\"len\":\"%016" PRIx64 "\"}", nn (it->u.bss->name), it->u.bss->len); break;
     case MIR_ref_data_item:
       fprintf (o, "{\"k\":\"ref\",\"name\":\"%s\",\"ref\":\"%s\",\"disp\":\"%016" PRIx64 "\"}", nn (it->u.ref_data->name),
-               MIR_item_name (ctx, it->u.ref_data->ref_item), (uint64_t) it->u.ref_data->disp);
+               nn (MIR_item_name (ctx, it->u.ref_data->ref_item)), (uint64_t) it->u.ref_data->disp);
       break;
     case MIR_lref_data_item:
       fprintf (o, "{\"k\":\"lref\",\"name\":\"%s\",\"l1\":", nn (it->u.lref_data->name));
@@ -478,7 +491,7 @@ static void pj_module (FILE *o, MIR_context_t ctx, MIR_module_t m) {
       break;
     case MIR_expr_data_item:
       fprintf (o, "{\"k\":\"expr\",\"name\":\"%s\",\"func\":\"%s\"}", nn (it->u.expr_data->name),
-               MIR_item_name (ctx, it->u.expr_data->expr_item));
+               nn (MIR_item_name (ctx, it->u.expr_data->expr_item)));
       break;
     case MIR_data_item: {
       MIR_data_t d = it->u.data;
@@ -491,7 +504,7 @@ static void pj_module (FILE *o, MIR_context_t ctx, MIR_module_t m) {
     }
     case MIR_proto_item: {
       MIR_proto_t p = it->u.proto;
-      fprintf (o, "{\"k\":\"proto\",\"name\":\"%s\",\"va\":%d,\"res\":[", p->name, p->vararg_p != 0);
+      fprintf (o, "{\"k\":\"proto\",\"name\":\"%s\",\"va\":%d,\"res\":[", nn (p->name), p->vararg_p != 0);
       for (uint32_t i = 0; i < p->nres; i++) fprintf (o, "%s\"%s\"", i ? "," : "", tname (p->res_types[i]));
       fprintf (o, "],\"args\":");
       pj_vars (o, ctx, NULL, p->args, 0, VARR_LENGTH (MIR_var_t, p->args), 1, 0);
@@ -501,7 +514,7 @@ static void pj_module (FILE *o, MIR_context_t ctx, MIR_module_t m) {
     case MIR_func_item: {
       MIR_func_t f = it->u.func;
       int nl = 0, fi = 1;
-      fprintf (o, "{\"k\":\"func\",\"name\":\"%s\",\"va\":%d,\"res\":[", f->name, f->vararg_p != 0);
+      fprintf (o, "{\"k\":\"func\",\"name\":\"%s\",\"va\":%d,\"res\":[", nn (f->name), f->vararg_p != 0);
       for (uint32_t i = 0; i < f->nres; i++) fprintf (o, "%s\"%s\"", i ? "," : "", tname (f->res_types[i]));
       fprintf (o, "],\"args\":");
       pj_vars (o, ctx, f, f->vars, 0, f->nargs, 1, 0);
